@@ -1,5 +1,471 @@
 import Rivaas.Proto
-/- Driver for C07 (stub: not built yet) -/
-def main : IO UInt32 := do
-  IO.eprintln "driver for C07 is not built yet"
-  return 2
+import Rivaas.Spec.OpenAPI
+/-
+Driver for C07. Case line:
+
+  <id> <30|31> <strict> <nenv> ENV* <nops> OP*  =>  OFF ON <metaValid> <refsResolve> <stable>
+
+  ENV := <tid> S <name> <pkgPath> <n> FIELD*  |  <tid> A TY
+  FIELD := F <name> <exported> <json> <validate> <query> <path> <header> <cookie> TY | E <tid>
+  TY := P <kind> | T | Ptr TY | Sl TY | Ar TY | Mp <0|1> TY | N <tid>
+  OP := <method> <path> <summary> <description> <opID> (0 | 1 TY) <nresp> { <status> <statusText> (0 | 1 TY) }*
+  OFF := CP (an operation constructor panicked: invalid path) | P (Generate panicked) | E <class> | D JSON
+  ON  := CP | P | E <class> | S (same bytes as OFF's document) | X (a different document)
+  JSON := O <n> {<key> JSON}* | A <n> JSON* | S <str> | N <str> | T | F | Z
+  <str> := h:<hex> | r:<raw>
+
+OFF is `API.Generate` with validation off, ON with `WithValidation(true)`. `metaValid` is the verdict of
+the jsonschema library on OFF's document against the repository's embedded meta-schema (the validator
+is a parameter of the model), `refsResolve` the harness' own JSON-pointer resolution of every `$ref`
+in the raw JSON, `stable` byte equality of repeated generations.
+
+The produced JSON is read *strictly* into `Doc Schema`: a member the grammar does not know makes the
+case `unparsed` (MI=0), so nothing in the document is ignored silently.
+-/
+namespace Rivaas.DriverC07
+open Rivaas.Proto Rivaas.OpenAPI
+
+abbrev M := StateT (List String) (Except String)
+
+def tk : M String := fun st => match st with
+  | [] => .error "unexpected end of line"
+  | t :: r => .ok (t, r)
+
+def fail {α} (msg : String) : M α := fun _ => .error msg
+
+def pNat : M Nat := do
+  let t ← tk
+  match t.toNat? with
+  | some n => pure n
+  | none => fail s!"not a number: {t}"
+
+def pBool : M Bool := do
+  let t ← tk
+  if t == "1" then pure true else if t == "0" then pure false else fail s!"not a bool: {t}"
+
+def pStr : M B := do
+  let t ← tk
+  if t.startsWith "h:" then
+    match unhexBytes (t.drop 2).toString.toList with
+    | some bs => pure (bytesOfU8 bs)
+    | none => fail s!"bad hex: {t}"
+  else if t.startsWith "r:" then pure (t.drop 2).toString.toList
+  else fail s!"not a string token: {t}"
+
+def many {α} : Nat → M α → M (List α)
+  | 0, _ => pure []
+  | n+1, p => do
+    let a ← p
+    let r ← many n p
+    pure (a :: r)
+
+def pList {α} (p : M α) : M (List α) := do
+  let n ← pNat
+  many n p
+
+def pOpt {α} (p : M α) : M (Option α) := do
+  let b ← pBool
+  if b then some <$> p else pure none
+
+def pKind : M PKind := do
+  let t ← tk
+  match t with
+  | "bool" => pure .bool | "int" => pure .int | "int8" => pure .int8 | "int16" => pure .int16
+  | "int32" => pure .int32 | "int64" => pure .int64 | "uint" => pure .uint | "uint8" => pure .uint8
+  | "uint16" => pure .uint16 | "uint32" => pure .uint32 | "uint64" => pure .uint64
+  | "float32" => pure .float32 | "float64" => pure .float64 | "string" => pure .string
+  | "iface" => pure .iface | "other" => pure .other
+  | _ => fail s!"unknown kind {t}"
+
+partial def pTy : M Ty := do
+  let t ← tk
+  match t with
+  | "P" => Ty.prim <$> pKind
+  | "T" => pure .time
+  | "Ptr" => Ty.ptr <$> pTy
+  | "Sl" => Ty.slice <$> pTy
+  | "Ar" => Ty.array <$> pTy
+  | "Mp" => do let b ← pBool; Ty.map b <$> pTy
+  | "N" => Ty.named <$> pNat
+  | _ => fail s!"unknown type token {t}"
+
+def pField : M Field := do
+  let t ← tk
+  match t with
+  | "F" => do
+    let name ← pStr; let ex ← pBool; let json ← pStr; let validate ← pStr
+    let query ← pStr; let path ← pStr; let header ← pStr; let cookie ← pStr
+    let ty ← pTy
+    pure (.field { name, exported := ex, json, validate, query, path, header, cookie } ty)
+  | "E" => Field.embed <$> pNat
+  | _ => fail s!"unknown field token {t}"
+
+def pEnvEntry : M (Nat × Def) := do
+  let id ← pNat
+  let t ← tk
+  match t with
+  | "S" => do
+    let name ← pStr; let pkg ← pStr
+    let fs ← pList pField
+    pure (id, .struct name pkg fs)
+  | "A" => do let ty ← pTy; pure (id, .alias ty)
+  | _ => fail s!"unknown env token {t}"
+
+def pOp : M OpIn := do
+  let method ← pStr; let path ← pStr; let summary ← pStr; let description ← pStr; let opID ← pStr
+  let req ← pOpt pTy
+  let resps ← pList (do let st ← pNat; let text ← pStr; let ty ← pOpt pTy; pure (st, text, ty))
+  pure { method, path, summary, description, opID, req, resps }
+
+structure Input where
+  v : Version
+  strict : Bool
+  env : Env
+  ops : List OpIn
+
+def pInput : M Input := do
+  let vt ← tk
+  let v ← (if vt == "30" then pure Version.v30 else if vt == "31" then pure Version.v31 else fail s!"bad version {vt}")
+  let strict ← pBool
+  let env ← pList pEnvEntry
+  let ops ← pList pOp
+  pure { v, strict, env, ops }
+
+/-! ## reading the produced JSON strictly into `Doc Schema` -/
+
+/-- iterate over the members of an object: `f key` parses the value into the accumulator -/
+def pObj {σ} (init : σ) (f : B → σ → M σ) : M σ := do
+  let t ← tk
+  if t != "O" then fail s!"expected an object, got {t}"
+  let n ← pNat
+  let rec go : Nat → σ → M σ
+    | 0, acc => pure acc
+    | k+1, acc => do
+      let key ← pStr
+      let acc' ← f key acc
+      go k acc'
+  go n init
+
+def pJStr : M B := do
+  let t ← tk
+  if t != "S" then fail s!"expected a string value, got {t}"
+  pStr
+
+def pJBool : M Bool := do
+  let t ← tk
+  if t == "T" then pure true else if t == "F" then pure false else fail s!"expected a boolean value, got {t}"
+
+def pJStrs : M (List B) := do
+  let t ← tk
+  if t != "A" then fail s!"expected an array, got {t}"
+  pList pJStr
+
+def pJArr {α} (p : M α) : M (List α) := do
+  let t ← tk
+  if t != "A" then fail s!"expected an array, got {t}"
+  pList p
+
+def insertAttr (x : B × Sc) : Attrs → Attrs
+  | [] => [x]
+  | y :: ys => if bytesLe x.1 y.1 then x :: y :: ys else y :: insertAttr x ys
+
+/-- a scalar member value: string, number, boolean or array of strings -/
+def pScalar : M Sc := do
+  let t ← tk
+  match t with
+  | "S" => Sc.str <$> pStr
+  | "N" => Sc.num <$> pStr
+  | "T" => pure (.bool true)
+  | "F" => pure (.bool false)
+  | "A" => Sc.strs <$> pList pJStr
+  | _ => fail s!"unexpected scalar {t}"
+
+structure SchemaAcc where
+  ref : Option B := none
+  attrs : Attrs := []
+  items : OTree Attrs := .none
+  props : PTree Attrs := .nil
+  addl : OTree Attrs := .none
+
+partial def pSchema : M Schema := do
+  let acc ← pObj ({} : SchemaAcc) fun key acc => do
+    if key = s "$ref" then do let r ← pJStr; pure { acc with ref := some r }
+    else if key = s "items" then do let t ← pSchema; pure { acc with items := .some t }
+    else if key = s "additionalProperties" then do let t ← pSchema; pure { acc with addl := .some t }
+    else if key = s "properties" then do
+      let ps ← pObj (PTree.nil : PTree Attrs) fun k p => do
+        let t ← pSchema
+        pure (PTree.insertSorted k t p)
+      pure { acc with props := ps }
+    else do
+      let v ← pScalar
+      pure { acc with attrs := insertAttr (key, v) acc.attrs }
+  match acc.ref with
+  | some r =>
+    if acc.attrs.isEmpty then pure (.ref r) else fail "a $ref schema with sibling members"
+  | none => pure (.node acc.attrs acc.items acc.props acc.addl)
+
+/-- `{"application/json": {"schema": …}}` -/
+def pContent : M (Option Schema) := do
+  pObj none fun ct acc => do
+    if ct ≠ s "application/json" then fail "unexpected media type"
+    else if acc.isSome then fail "two media types"
+    else
+      let sch ← pObj (none : Option Schema) fun k a => do
+        if k = s "schema" then do let t ← pSchema; pure (some t)
+        else fail s!"unknown media type member {String.ofList k}"
+      match sch with
+      | some t => pure (some t)
+      | none => fail "media type without schema"
+
+def pParam : M (Param Schema) := do
+  let r ← pObj (([] : B), ([] : B), false, (none : Option Schema)) fun k acc => do
+    if k = s "name" then do let v ← pJStr; pure (v, acc.2.1, acc.2.2.1, acc.2.2.2)
+    else if k = s "in" then do let v ← pJStr; pure (acc.1, v, acc.2.2.1, acc.2.2.2)
+    else if k = s "required" then do let v ← pJBool; pure (acc.1, acc.2.1, v, acc.2.2.2)
+    else if k = s "schema" then do let v ← pSchema; pure (acc.1, acc.2.1, acc.2.2.1, some v)
+    else fail s!"unknown parameter member {String.ofList k}"
+  match r.2.2.2 with
+  | some sch => pure { name := r.1, loc := r.2.1, required := r.2.2.1, schema := sch }
+  | none => fail "parameter without schema"
+
+def insertRespD (x : Resp Schema) : List (Resp Schema) → List (Resp Schema) := insertResp x
+
+def pResponses : M (List (Resp Schema)) :=
+  pObj [] fun code acc => do
+    let r ← pObj (([] : B), (none : Option Schema)) fun k a => do
+      if k = s "description" then do let v ← pJStr; pure (v, a.2)
+      else if k = s "content" then do let c ← pContent; pure (a.1, c)
+      else fail s!"unknown response member {String.ofList k}"
+    pure (insertResp { code := code, description := r.1, schema := r.2 } acc)
+
+def pOperation : M (Operation Schema) := do
+  let init : Operation Schema := { opId := [], summary := [], description := [], params := [], body := none, resps := [] }
+  pObj init fun k o => do
+    if k = s "operationId" then do let v ← pJStr; pure { o with opId := v }
+    else if k = s "summary" then do let v ← pJStr; pure { o with summary := v }
+    else if k = s "description" then do let v ← pJStr; pure { o with description := v }
+    else if k = s "parameters" then do let v ← pJArr pParam; pure { o with params := v }
+    else if k = s "responses" then do let v ← pResponses; pure { o with resps := v }
+    else if k = s "requestBody" then do
+      let r ← pObj (false, (none : Option Schema)) fun kk a => do
+        if kk = s "required" then do let v ← pJBool; pure (v, a.2)
+        else if kk = s "content" then do let c ← pContent; pure (a.1, c)
+        else fail s!"unknown requestBody member {String.ofList kk}"
+      if !r.1 then fail "requestBody not required"
+      match r.2 with
+      | some sch => pure { o with body := some sch }
+      | none => fail "requestBody without content"
+    else fail s!"unknown operation member {String.ofList k}"
+
+def pPathItem : M (PathItem Schema) :=
+  pObj [] fun k item => do
+    let o ← pOperation
+    pure (insertKey (k, o) item)
+
+structure DocAcc where
+  openapi : B := []
+  dialect : B := []
+  servers : List B := []
+  paths : List (B × PathItem Schema) := []
+  schemas : List (B × Schema) := []
+  info : Bool := false
+
+def pDoc : M (Doc Schema) := do
+  let acc ← pObj ({} : DocAcc) fun k d => do
+    if k = s "openapi" then do let v ← pJStr; pure { d with openapi := v }
+    else if k = s "jsonSchemaDialect" then do let v ← pJStr; pure { d with dialect := v }
+    else if k = s "info" then do
+      let r ← pObj (false, false) fun kk a => do
+        if kk = s "title" then do let _ ← pJStr; pure (true, a.2)
+        else if kk = s "version" then do let _ ← pJStr; pure (a.1, true)
+        else fail s!"unknown info member {String.ofList kk}"
+      if r.1 && r.2 then pure { d with info := true } else fail "info without title/version"
+    else if k = s "servers" then do
+      let v ← pJArr (do
+        let u ← pObj (none : Option B) fun kk _ => do
+          if kk = s "url" then do let x ← pJStr; pure (some x) else fail "unknown server member"
+        match u with
+        | some x => pure x
+        | none => fail "server without url")
+      pure { d with servers := v }
+    else if k = s "paths" then do
+      let v ← pObj ([] : List (B × PathItem Schema)) fun p acc => do
+        let item ← pPathItem
+        pure (insertKey (p, item) acc)
+      pure { d with paths := v }
+    else if k = s "components" then do
+      let v ← pObj ([] : List (B × Schema)) fun kk acc => do
+        if kk = s "schemas" then
+          pObj acc fun name a => do
+            let t ← pSchema
+            pure (insertKey (name, t) a)
+        else fail s!"unknown components member {String.ofList kk}"
+      pure { d with schemas := v }
+    else fail s!"unknown document member {String.ofList k}"
+  if !acc.info then fail "document without info"
+  pure { openapi := acc.openapi, dialect := acc.dialect, servers := acc.servers, paths := acc.paths, schemas := acc.schemas }
+
+/-! ## observations -/
+
+inductive Res
+  | ctorPanic
+  | panic
+  | err (e : String)
+  | doc (d : Doc Schema)
+  | same
+  | other
+  | unparsed (why : String)
+
+def pErrClass : M String := tk
+
+/-- OFF; the JSON is consumed from the token stream even when it cannot be read into a Doc -/
+def pOff : M Res := do
+  let t ← tk
+  match t with
+  | "CP" => pure .ctorPanic
+  | "P" => pure .panic
+  | "E" => Res.err <$> pErrClass
+  | "D" => fun st =>
+    match pDoc st with
+    | .ok (d, rest) => .ok (.doc d, rest)
+    | .error why => .ok (.unparsed why, st)      -- flags are read from the end of the line instead
+  | _ => fail s!"bad OFF token {t}"
+
+/-! ## comparing documents -/
+
+mutual
+  partial def diffSchema (path : String) : Schema → Schema → Option String
+    | .ref a, .ref b => if a = b then none else some s!"{path}: $ref {String.ofList a} vs {String.ofList b}"
+    | .node h1 i1 p1 a1, .node h2 i2 p2 a2 =>
+      if h1 ≠ h2 then some s!"{path}: members {repr h1} vs {repr h2}"
+      else (diffO (path ++ "/items") i1 i2).orElse fun _ =>
+        (diffP (path ++ "/properties") p1 p2).orElse fun _ => diffO (path ++ "/additionalProperties") a1 a2
+    | .ref _, .node .. => some s!"{path}: $ref vs node"
+    | .node .., .ref _ => some s!"{path}: node vs $ref"
+  partial def diffO (path : String) : OTree Attrs → OTree Attrs → Option String
+    | .none, .none => none
+    | .some a, .some b => diffSchema path a b
+    | _, _ => some s!"{path}: presence differs"
+  partial def diffP (path : String) : PTree Attrs → PTree Attrs → Option String
+    | .nil, .nil => none
+    | .cons k1 t1 r1, .cons k2 t2 r2 =>
+      if k1 ≠ k2 then some s!"{path}: key {String.ofList k1} vs {String.ofList k2}"
+      else (diffSchema (path ++ "/" ++ String.ofList k1) t1 t2).orElse fun _ => diffP path r1 r2
+    | .nil, .cons k _ _ => some s!"{path}: model lacks {String.ofList k}"
+    | .cons k _ _, .nil => some s!"{path}: impl lacks {String.ofList k}"
+end
+
+def diffOptSchema (path : String) : Option Schema → Option Schema → Option String
+  | none, none => none
+  | some a, some b => diffSchema path a b
+  | _, _ => some s!"{path}: presence differs"
+
+def diffList {α} (path : String) (f : String → α → α → Option String) : List α → List α → Option String
+  | [], [] => none
+  | a :: as, b :: bs => (f path a b).orElse fun _ => diffList path f as bs
+  | _, _ => some s!"{path}: lengths differ"
+
+def diffOperation (path : String) (m i : Operation Schema) : Option String :=
+  if m.opId ≠ i.opId then some s!"{path}: operationId {String.ofList m.opId} vs {String.ofList i.opId}"
+  else if m.summary ≠ i.summary then some s!"{path}: summary"
+  else if m.description ≠ i.description then some s!"{path}: description"
+  else
+    (diffList (path ++ "/parameters") (fun p a b =>
+      if a.name ≠ b.name ∨ a.loc ≠ b.loc ∨ a.required ≠ b.required then
+        some s!"{p}: {String.ofList a.loc}:{String.ofList a.name}:{a.required} vs {String.ofList b.loc}:{String.ofList b.name}:{b.required}"
+      else diffSchema (p ++ "/" ++ String.ofList a.name) a.schema b.schema) m.params i.params).orElse fun _ =>
+    (diffOptSchema (path ++ "/requestBody") m.body i.body).orElse fun _ =>
+    diffList (path ++ "/responses") (fun p a b =>
+      if a.code ≠ b.code ∨ a.description ≠ b.description then some s!"{p}: {String.ofList a.code} vs {String.ofList b.code}"
+      else diffOptSchema (p ++ "/" ++ String.ofList a.code) a.schema b.schema) m.resps i.resps
+
+/-- first difference between the model's document and the implementation's, `none` if equal -/
+def diffDoc (m i : Doc Schema) : Option String :=
+  if m.openapi ≠ i.openapi then some "openapi"
+  else if m.dialect ≠ i.dialect then some "jsonSchemaDialect"
+  else if m.servers ≠ i.servers then some "servers"
+  else
+    (diffList "paths" (fun p a b =>
+      if a.1 ≠ b.1 then some s!"{p}: key {String.ofList a.1} vs {String.ofList b.1}"
+      else diffList (p ++ String.ofList a.1) (fun q x y =>
+        if x.1 ≠ y.1 then some s!"{q}: member {String.ofList x.1} vs {String.ofList y.1}"
+        else diffOperation (q ++ "/" ++ String.ofList x.1) x.2 y.2) a.2 b.2) m.paths i.paths).orElse fun _ =>
+    diffList "components" (fun p a b =>
+      if a.1 ≠ b.1 then some s!"{p}: key {String.ofList a.1} vs {String.ofList b.1}"
+      else diffSchema (p ++ "/" ++ String.ofList a.1) a.2 b.2) m.schemas i.schemas
+
+def errName : Err → String
+  | .dupOp => "dupop"
+  | .status => "status"
+  | .noPaths => "nopaths"
+  | .validation => "validation"
+
+def clean (x : String) : String := x.map fun c => if c = ' ' ∨ c = '\n' then '_' else c
+
+def step (line : String) : String :=
+  match splitCase line with
+  | none => "? bad-line"
+  | some (id, inp, obs) =>
+    match (pInput.run inp) with
+    | .error why => s!"{id} bad-case input: {clean why}"
+    | .ok (x, restIn) =>
+      if !restIn.isEmpty then s!"{id} bad-case trailing-input" else
+      match pOff.run obs with
+      | .error why => s!"{id} bad-case observation: {clean why}"
+      | .ok (off, _) =>
+        -- ON and the three flags are the last tokens of the line
+        let rev := obs.reverse
+        let flags := (rev.take 3).reverse
+        let t4 := (rev.drop 3).head?.getD ""
+        let t5 := (rev.drop 4).head?.getD ""
+        let on : Res :=
+          if t5 == "E" then .err t4
+          else match t4 with
+            | "CP" => .ctorPanic
+            | "P" => .panic
+            | "S" => .same
+            | "X" => .other
+            | _ => .unparsed "on"
+        match flags with
+        | [mv, rr, stb] =>
+          let metaValid := mv == "1"
+          let refsResolve := rr == "1"
+          let stable := stb == "1"
+          -- the model
+          let pathsValid := x.ops.all fun op => validatePath op.path
+          let mOff := generate x.v x.strict none x.env x.ops
+          let mOn := generate x.v x.strict (some fun _ => metaValid) x.env x.ops
+          -- MI
+          let (miOff, why) : Bool × String :=
+            if !pathsValid then (match off with | .ctorPanic => (true, "") | _ => (false, "model:ctor-panic"))
+            else match mOff, off with
+              | .error e, .err c => (errName e == c, s!"model:E_{errName e}")
+              | .ok md, .doc d => (match diffDoc md d with | none => (true, "") | some w => (false, "diff:" ++ clean w))
+              | .error e, _ => (false, s!"model:E_{errName e}")
+              | .ok _, .unparsed w => (false, "unparsed:" ++ clean w)
+              | .ok _, _ => (false, "model:doc")
+          let miOn : Bool :=
+            if !pathsValid then (match on with | .ctorPanic => true | _ => false)
+            else match mOn, on with
+              | .error e, .err c => errName e == c
+              | .ok _, .same => true
+              | _, _ => false
+          -- S: the oracle on what the implementation did
+          let sOK : Bool :=
+            match off with
+            | .ctorPanic => true                    -- no operation was constructed, Generate was not called
+            | .panic => false                       -- neither an error nor a document
+            | .err _ => (match on with | .panic => false | _ => true)
+            | .doc d =>
+              docOK x.v x.ops d && metaValid && refsResolve && stable &&
+              (match on with | .same => true | _ => false)   -- validation must not reject (or change) a valid document
+            | .unparsed _ => true                   -- correspondence broken, not (yet) a property violation
+            | _ => false
+          let detail := if miOff then (if miOn then "ok" else "on-mismatch") else why
+          verdict id (miOff && miOn) sOK "-" detail
+        | _ => s!"{id} bad-case flags"
+
+end Rivaas.DriverC07
+
+def main : IO UInt32 := Rivaas.Proto.driverMain Rivaas.DriverC07.step
